@@ -17,9 +17,9 @@ def mkbooks():
     from openpyxl import Workbook
     os.makedirs(DIR, exist_ok=True)
     specs = [
-        {'Main': {'A1': 1, 'A2': 2, 'B1': '=A1+A2', 'B2': '=SUM(A1:A2)*2', 'C3': '=IF(B1>2,"x","y")'}, 'Other': {'A1': '=Main!B2+1', 'B1': 5}},
+        {'Main': {'A1': 1, 'A2': 2, 'B1': '=A1+A2', 'B2': '=SUM(A1:A2)*2', 'C3': '=IF(B1>2,"x","y")', 'D1': '=AND(A1>0,A2>0,B1>0,A1>0)', 'D2': '=IF(OR(A1>2,A2>1,A1>2),1,2)', 'D3': '=MAX(A1,A2,A1)+MIN(A2,A1,A2)', 'D4': '=SUM(A1:A2,A1:A2)+COUNT(A1,A2,A1)', 'D5': '=IFS(A1>5,1,A2>5,2,A1>5,3,TRUE,4)&CONCATENATE(A1,A2,A1)'}, 'Other': {'A1': '=Main!B2+1', 'B1': 5}},
         # same formula texts in the same cells as workbook 0, different constants (a process-wide cache keyed by text would leak)
-        {'Main': {'A1': 10, 'A2': 20, 'B1': '=A1+A2', 'B2': '=SUM(A1:A2)*2', 'C3': '=IF(B1>2,"x","y")'}, 'Other': {'A1': '=Main!B2+1', 'B1': 50}},
+        {'Main': {'A1': 10, 'A2': 20, 'B1': '=A1+A2', 'B2': '=SUM(A1:A2)*2', 'C3': '=IF(B1>2,"x","y")', 'D1': '=AND(A1>0,A2>0,B1>0,A1>0)', 'D2': '=IF(OR(A1>2,A2>1,A1>2),1,2)', 'D3': '=MAX(A1,A2,A1)+MIN(A2,A1,A2)', 'D4': '=SUM(A1:A2,A1:A2)+COUNT(A1,A2,A1)', 'D5': '=IFS(A1>5,1,A2>5,2,A1>5,3,TRUE,4)&CONCATENATE(A1,A2,A1)'}, 'Other': {'A1': '=Main!B2+1', 'B1': 50}},
         {'Main': {'A1': 1, 'B2': '=A1+1', 'C3': 'eval(1)'}, 'Other': {'A1': 'os.system(1)'}},       # unsafe workbook
         # workbooks whose translation FAILS in the middle of a formula (state left behind by a failed translation would leak into the next one)
         {'Main': {'A1': 1, 'A2': 2, 'B1': '=A1+A2', 'B2': '=SUM(1;', 'C3': '=IF(B2>2,"x","y")'}, 'Other': {'A1': '=Main!B2+1', 'B1': 5}},      # malformed formula
